@@ -62,6 +62,11 @@ def run(ctx: Ctx):
 
     no_shared_writes(ctx, "payload-not-written.upper-layers", shorts=tuple(MEASURE_CODE) + ("cubepart.py", "min_base_size_mask.py", "measures/pairwise_significance.py", "scalar.py"),
                      accept=("Fresh", "Self", "Owned"), origin_words=("_cube_measures.", "self._cube.", "cube_measures.", "cube."))
+    # the 0-D partition hands out the mean as it is: no truth test of the stored values (a mean of exactly 0.0 is a mean)
+    from .common import data_field_truthiness
+
+    data_field_truthiness(ctx, "value-truthiness", "scalar.py", "MeansScalar")
+    data_field_truthiness(ctx, "value-truthiness", "cubepart.py", "_Nub", value_exprs=("self._cube.means", "self._scalar.means", "self._cube.unweighted_counts", "self._scalar.table_base"))
 
 
 # --------------------------------------------------------------------------- 1
